@@ -87,6 +87,7 @@ fn alphabet(n: usize) -> Vec<Dev> {
         true
     }));
     d.extend(crate::devs::rich_generic_devs(true));
+            d.extend(crate::devs::context_devs());
     d
 }
 
